@@ -53,7 +53,7 @@ def seg(rng, cls, ivals, fvals):
         if k == "N": return "WN,%d" % rng.randint(-9, 99)          # a type without a Show instance (generic fallback text)
         return "W%s,%s" % (k, str(rng.choice(ivals)) if k == "I" else ("%016x" % rng.choice(fvals)) if k == "F" else h(rng.choice(STRS)))
     if cls == "showc":
-        k = rng.choice("ALTUDXRVvMm")
+        k = rng.choice("ALTUDXRVvMmOo")
         if k in "Mm":         # a Tree / Table whose values are wider than its keys
             ks = rng.sample(range(-5, 40), rng.choice([0, 1, 3, 5]))
             return "W%s,%s" % (k, ",".join("%d,%d" % (kk, 1000 + kk) for kk in ks))
@@ -61,6 +61,7 @@ def seg(rng, cls, ivals, fvals):
             ks = rng.sample(range(0, 12), rng.choice([0, 1, 3, 4]))
             return "W%s,%s" % (k, ",".join("%d,%d" % (kk, 100 + kk) for kk in ks))
         n = rng.choice([0, 1, 3]) * (2 if k == "T" else 1)
+        if k in "Oo": n = rng.choice([0, 1, 2, 3, 5])          # elements of a 12-byte type with its own Show instance (slots are rounded)
         if k == "R":          # a Range: its values are 64-bit Ints (starts beyond 32 bits as well), ascending or descending
             st = rng.choice([0, -3, 2**31 - 2, -2**31 - 3, 2**32, 2**40 + 5, -2**45])
             step = rng.choice([1, 1, 2, 7, -1, -3])
